@@ -246,16 +246,19 @@ def stage_probe(ctx, stats):
             _, args = rand_roundtrip(rng)
             args = [a.replace('\x00', '') for a in args]
             mode = rng.choice(['cmdline', 'args', 'popen'])
+            # a preexec_fn of the caller's: it must run (the child reports its umask) and must not displace anything else
+            pre = (mode != 'popen' and rng.random() < 0.5)
+            kw_pre = dict(preexec_fn=(lambda: os.umask(0o057))) if pre else {}
             info = None
             launch_exc = None
             try:
                 if mode == 'cmdline':
                     cmd = '  ' * rng.randrange(0, 2) + common.PY + ' ' + PROBE + ' ' + ' '.join(quote(a, rng.choice(
                         ['bs'] + (['sq'] if "'" not in a else []) + (['dq'] if '"' not in a else []))) for a in args)
-                    p = pexpect.spawn(cmd, cwd=cwd, env=env, dimensions=dims, echo=echo, ignore_sighup=ign, encoding=enc_, timeout=20)
+                    p = pexpect.spawn(cmd, cwd=cwd, env=env, dimensions=dims, echo=echo, ignore_sighup=ign, encoding=enc_, timeout=20, **kw_pre)
                 elif mode == 'args':
                     p = pexpect.spawn(common.PY, [PROBE] + args, cwd=cwd, env=env, dimensions=dims, echo=echo, ignore_sighup=ign,
-                                      encoding=enc_, timeout=20)
+                                      encoding=enc_, timeout=20, **kw_pre)
                 else:
                     p = popen_spawn.PopenSpawn([common.PY, PROBE] + args, cwd=cwd, env=env, encoding=enc_, timeout=20)
                 info = read_probe(p)
@@ -265,7 +268,7 @@ def stage_probe(ctx, stats):
                     p.wait()
             except Exception as e:
                 launch_exc = repr(e)[:300]
-            sigs.add((mode, cwd is None, env is None, dims, echo, ign))
+            sigs.add((mode, cwd is None, env is None, dims, echo, ign, pre))
             want_cwd = os.path.realpath(cwd) if cwd else os.getcwd()
             problems = []
             if launch_exc:
@@ -287,12 +290,33 @@ def stage_probe(ctx, stats):
                     if info.get('echo') != echo:
                         problems.append('echo %r != %r' % (info.get('echo'), echo))
                     if info.get('sighup_ignored') != ign:
-                        problems.append('SIGHUP ignored %r != %r' % (info.get('sighup_ignored'), ign))
+                        problems.append('SIGHUP ignored %r != %r (preexec_fn given: %s)' % (info.get('sighup_ignored'), ign, pre))
+                    if pre and info.get('umask') != 0o057:
+                        problems.append('preexec_fn did not run in the child (umask %r)' % (info.get('umask'),))
             if problems:
                 common.report(ctx, 'launch/' + mode + '/' + problems[0].split(' ')[0], '; '.join(problems),
                               dict(mode=mode, args=args, cwd=cwd, env=envvals if env else None, dimensions=dims, echo=echo,
                                    ignore_sighup=ign, encoding=enc_, report=info))
                 break
+        # arguments the spawn's encoding cannot express: the child gets exactly the requested argv or the launch is refused
+        for enc_, errs, arg in (('ascii', 'replace', 'caf\u00e9-\u4e2d.txt'), ('ascii', 'ignore', 'na\u00efve'), ('latin-1', 'replace', 'price\u20ac'),
+                                ('utf-8', 'replace', 'data-\udcff.bin'), ('utf-8', 'ignore', 'plain'), ('latin-1', 'strict', 'caf\u00e9')):
+            try:
+                p = pexpect.spawn(common.PY, [PROBE, arg], encoding=enc_, codec_errors=errs, timeout=20)
+                info = read_probe(p); p.close()
+                got = info['argv_hex'][0] if info else None
+                try:
+                    want = arg.encode(enc_).hex()
+                except UnicodeEncodeError:
+                    want = None
+                if got != want:
+                    common.report(ctx, 'launch/argv-encoding', 'spawn(encoding=%r, codec_errors=%r) started the child with argument bytes %s for %r (%s)' % (
+                        enc_, errs, got, arg, 'expected ' + want if want else 'the encoding cannot express it: the launch must be refused'),
+                        dict(mode='argv-encoding', encoding=enc_, codec_errors=errs, arg=repr(arg)))
+                    break
+            except UnicodeEncodeError:
+                pass
+            n += 1
     finally:
         shutil.rmtree(tmp, ignore_errors=True)
     stats['launches'] = n
